@@ -98,17 +98,38 @@ def classifyTok (tok : String) : DTok Float :=
 
 /-! ### importances -/
 
+section
+variable {α : Type} [LT α] [DecidableRel (α := α) (· < ·)]
+
+/-- `max(a, b)` as Python computes it on two numbers (`None` when an entry is missing) -/
+def maxOpt (a b : Option α) : Option α :=
+  match a, b with
+  | some a, some b => some (if a < b then b else a)
+  | _, _ => none
+
+/-- entry `i` of the combined importances: the maximum over the cards, starting from the first -/
+def rankMax (c : List (Option α)) (cs : List (List (Option α))) (i : Nat) : Option α :=
+  (c :: cs).foldl (fun acc card => maxOpt acc (card.getD i none)) (c.getD i none)
+
 /-- per-rank maximum over the IMP:x data cards (all must have the same length) -/
-def importanceCards (cards : List (List (Option Float))) : Except String (List (Option Float)) :=
+def importanceCardsG (cards : List (List (Option α))) : Except String (List (Option α)) :=
   match cards with
   | [] => .ok []
   | [c] => .ok c
   | c :: cs =>
     if cs.any (·.length != c.length) then .error "unequal" else
-    .ok ((List.range c.length).map fun i =>
-      (c :: cs).foldl (fun (acc : Option Float) card =>
-        match acc, card.getD i none with
-        | some a, some b => some (if a < b then b else a)
-        | _, _ => none) (c.getD i none))
+    .ok ((List.range c.length).map fun i => rankMax c cs i)
+
+/-- the importance of a cell: the maximum over the particles named by `IMP` keywords on its card when there are
+any, otherwise entry `rank` (the position of the card in the cell block) of the combined data cards; `none` when
+neither gives a value (`Cannot find importance`) -/
+def cellImportance (kw : List α) (cards : List (Option α)) (rank : Nat) : Option α :=
+  match kw with
+  | v :: vs => some (vs.foldl (fun a b => if a < b then b else a) v)
+  | [] => cards.getD rank none
+end
+
+def importanceCards (cards : List (List (Option Float))) : Except String (List (Option Float)) :=
+  importanceCardsG cards
 
 end T4V
